@@ -157,6 +157,7 @@ type Result struct {
 	WallS        float64                `json:"wall_s"`
 
 	mu       sync.Mutex
+	current  interface{}
 	distinct map[string]struct{}
 	start    time.Time
 	maxFail  int
@@ -192,6 +193,10 @@ func (r *Result) Sample(v interface{}) {
 	}
 	r.mu.Unlock()
 }
+// Running records the case that is about to be handed to the implementation; when the
+// implementation panics on the calling goroutine the case is reported as the failing input.
+func (r *Result) Running(c interface{}) { r.mu.Lock(); r.current = c; r.mu.Unlock() }
+func (r *Result) Current() interface{}  { r.mu.Lock(); defer r.mu.Unlock(); return r.current }
 func (r *Result) Corr() { r.mu.Lock(); r.CorrChecked++; r.mu.Unlock() }
 func (r *Result) Fail(kind, class, what string, c interface{}) {
 	r.mu.Lock()
